@@ -154,7 +154,7 @@ def run_unit(unit):
         part.states += 1
         rows = prescription.rows(sp, lambda m, prev: LZ.ref_index(m, 0.5876, prev))
         epl = abcd.EPL(rows)
-        if not math.isfinite(epl) or abs(epl) > 1e6:
+        if abcd.pupil_degenerate(rows):
             part.count('skipped-telecentric-pupil')
             continue
         cond = f"object={'infinite' if math.isinf(obj) else 'finite'},field={ft},stop={c04.stop_class(rows)},mirrors={c04.mirror_class(rows)}"
@@ -175,7 +175,7 @@ def run_unit(unit):
             part.transitions += 1
             rows2 = prescription.rows(sp2, lambda m, prev: LZ.ref_index(m, 0.5876, prev))
             epl2 = abcd.EPL(rows2)
-            if math.isfinite(epl2) and abs(epl2) < 1e6:
+            if not abcd.pupil_degenerate(rows2):
                 det2 = dict(det, after='set_index(1.80)', surface_edited=gi + 1)
                 study(part, o, rows2, 'chief', ft, mf, obj, 'after-set_index-', cond, det2)
                 study(part, o, rows2, 'marginal', ft, mf, obj, 'after-set_index-', cond, det2)
